@@ -243,6 +243,24 @@ def walVersionIf (strict : Bool) (dbv : VersionIf) (wal : Wal) (number dbSize : 
 /-- dict update `d[k] = v` -/
 def dictSet (d : List (Nat × Nat)) (k v : Nat) : List (Nat × Nat) := dictInsert d k v
 
+/-- the frame loop of `WriteAheadLogCommitRecord.__init__`: page-number keyed dictionary of the
+record's frames (a page written twice: the later frame wins), committed flag, committed size -/
+def recordFrames (frames : List Frame) : Py (List (Nat × Frame) × Bool × Nat) :=
+  frames.foldlM
+    (fun (st : List (Nat × Frame) × Bool × Nat) f =>
+      let (d, com, cs) := st
+      if f.isCommit ∧ com then (.error .parseError : Py (List (Nat × Frame) × Bool × Nat))
+      else pure (dictInsert d f.hdr.pageNumber f, com ∨ f.isCommit, if f.isCommit then f.hdr.sizeAfterCommit else cs))
+    ([], false, 0)
+
+/-- `page_version_index` after the record: every updated page now belongs to this version -/
+def nextPvi (prev : List (Nat × Nat)) (number : Nat) (updated : List Nat) : List (Nat × Nat) :=
+  updated.foldl (fun d p => dictSet d p number) prev
+
+/-- `page_frame_index` after the record: every updated page is served by its frame of this record -/
+def nextPfi (prev : List (Nat × Nat)) (fd : List (Nat × Frame)) : List (Nat × Nat) :=
+  fd.foldl (fun d e => dictSet d e.1 e.2.number) prev
+
 /-- `WriteAheadLogCommitRecord.__init__` -/
 def makeCommitRecord (cfg : Config) (dbv : VersionIf) (wal : Wal) (number : Nat) (frames : List Frame)
     (prev : Version) (lastHdr : DbHeader) (lastSchema : MasterSchema) (lastRootTree : List BPage)
@@ -256,16 +274,10 @@ def makeCommitRecord (cfg : Config) (dbv : VersionIf) (wal : Wal) (number : Nat)
       if number ≠ mx + 1 then .error .parseError
       else
         -- frames into the page-number keyed dictionary
-        let (fd, committed, csize) ← frames.foldlM
-          (fun (st : List (Nat × Frame) × Bool × Nat) f => do
-            let (d, com, cs) := st
-            -- a page written twice in one transaction (cache spill): the later frame wins (dict assignment)
-            if f.isCommit ∧ com then (.error .parseError : Py (List (Nat × Frame) × Bool × Nat))
-            else pure (dictInsert d f.hdr.pageNumber f, com ∨ f.isCommit, if f.isCommit then f.hdr.sizeAfterCommit else cs))
-          ([], false, 0)
+        let (fd, committed, csize) ← recordFrames frames
         let updated := fd.map (·.1)
-        let pvi := updated.foldl (fun d p => dictSet d p number) prev.pvi
-        let pfi := fd.foldl (fun d e => dictSet d e.1 e.2.number) prev.pfi
+        let pvi := nextPvi prev.pvi number updated
+        let pfi := nextPfi prev.pfi fd
         -- an uncommitted record has database_size_in_pages = None: every page request raises TypeError
         if ¬ committed then .error .typeError
         else
